@@ -420,7 +420,7 @@ def run(chk):
         chk.dist("corpus")
 
     # ---- signal.psd -------------------------------------------------------------------------------------------------
-    for _ in range(110 if q else 1500):
+    for _ in range(200 if q else 4000):
         n, dt = pick_n(rng), pick_dt(rng)
         sig, kind = short_signal(rng, n, dt)
         nps, nov, nf = pick_args(rng, n, 256)
@@ -432,7 +432,7 @@ def run(chk):
             kind != "const" and segs(n, nps, nov, 256) >= 2, "signal:%s:%s" % (kind, "segs>=2" if segs(n, nps, nov, 256) >= 2 else "segs<2"))
 
     # ---- TimeSeries.psd ---------------------------------------------------------------------------------------------------
-    for _ in range(110 if q else 1500):
+    for _ in range(200 if q else 4000):
         n, dt = max(2, pick_n(rng)), pick_dt(rng)
         sig, kind = short_signal(rng, n, dt)
         u = rng.random()
@@ -465,7 +465,7 @@ def run(chk):
             "ts:%s:jitter=%g:%s" % (kind, jit, "norm" if case["normalize"] else "plain"))
 
     # ---- app.funcs.calculate_psd ----------------------------------------------------------------------------------------------
-    for _ in range(60 if q else 800):
+    for _ in range(100 if q else 2000):
         n, dt = max(2, pick_n(rng)), pick_dt(rng)
         sig, kind = short_signal(rng, n, dt)
         jit = 0.0 if "x" in sig else rng.choice([0.0, 0.0, 0.002, 0.05, 0.3])
@@ -530,7 +530,7 @@ def run(chk):
             chk.sample(dict(inp, f=brief(im[1], 4), p=brief(im[2], 4)))
 
     # ---- long stationary signals: area, peak (and the general clauses) ----------------------------------------------------------------
-    for _ in range(36 if q else 500):
+    for _ in range(60 if q else 1500):
         n = rng.choice([512, 1024, 2000, 4096, 5000] + ([] if q else [8192]))
         dt = rng.choice([0.05, 0.1, 0.25, 0.5, 1.0, 2.0, 0.37])
         api = rng.choice(["signal", "ts", "ts", "gui"])
@@ -548,8 +548,8 @@ def run(chk):
         tones = [[a0, fs[0], rng.uniform(0, 2 * math.pi)]] + [[a0 * rng.uniform(0.05, 0.33), g, rng.uniform(0, 2 * math.pi)] for g in fs[1:]]
         sig = dict(n=n, dt=dt, t0=rng.choice([0.0, 100.0]), offset=rng.choice([0.0, 5.0, -300.0, 1000.0]), tones=tones,
                    noise_sd=rng.choice([0.0, 0.0, 0.05]) * a0, noise_seed=rng.randrange(10 ** 9))
-        if api == "gui" and rng.random() < 0.4:
-            sig["jitter"] = dict(amp=rng.choice([0.002, 0.05]), seed=rng.randrange(10 ** 9))
+        # (uniform sampling only: the property is about uniformly sampled signals; on the GUI path a varying step is resampled by
+        #  linear interpolation, which attenuates the upper half of the band and so does not preserve the variance)
         case = dict(api=api, sig=sig, nperseg=nps, checks=["ok", "area", "peak", "grid", "nonneg", "scale", "shift"] +
                     (["definition", "timeunit"] if api == "signal" else []) + (["definition", "normalised", "default"] if api == "ts" else []) +
                     (["normalised", "clip"] if api == "gui" else []), a=rng.choice([-2.5, 0.3, 7.0]), c=rng.choice([1000.0, -3.25]),
@@ -561,7 +561,7 @@ def run(chk):
         chk.dist("long:%s:dt=%g" % (api, dt))
 
     # ---- dedicated guard / default cases --------------------------------------------------------------------------------------------------
-    for _ in range(20 if q else 200):
+    for _ in range(30 if q else 500):
         n, dt = rng.randint(8, 120), pick_dt(rng)
         big = rng.random() < 0.6
         amp = rng.choice([0.03, 0.06, 0.2]) if big else rng.choice([0.0, 1e-5, 0.002])
